@@ -435,3 +435,38 @@ Definition step_keywords_ok (kw : kwtable) : bool :=
              | None => false
              end) (snd tk))
           [(RGiven, k_given kw); (RWhen, k_when kw); (RThen, k_then kw); (RAnd, k_and kw); (RBut, k_but kw)].
+
+(* ---- doc-strings: the lines between the delimiters, without the delimiter's indentation and trailing blanks ---- *)
+Definition doc_line_ok (col : nat) (term : ustr) (l : ustr) : Prop :=
+  prefixb term (strip l) = false /\ strip (firstn col l) = [].
+
+Lemma multiline_collects ls : forall m,
+  m_st m = StMultiline -> Forall (doc_line_ok (m_ml_lead m) (m_ml_term m)) ls ->
+  exists m', fold_left feed ls (ROk m) = ROk m' /\ m_st m' = StMultiline /\
+             m_lines m' = rev (map (fun l => rstrip (skipn (m_ml_lead m) l)) ls) ++ m_lines m /\
+             m_ml_lead m' = m_ml_lead m /\ m_ml_term m' = m_ml_term m /\ m_ml_start m' = m_ml_start m /\
+             m_line m' = m_line m + length ls.
+Proof.
+  induction ls as [|l ls IH]; intros m ST F.
+  - exists m. cbn [fold_left map rev app length]. repeat split; auto.
+  - inversion F as [|? ? [T B] F']. subst. cbn [fold_left].
+    assert (E : feed (ROk m) l = ROk (upd_ml (upd_line m (S (m_line m))) (m_ml_start m) (m_ml_lead m) (m_ml_term m)
+                                             (rstrip (skipn (m_ml_lead m) l) :: m_lines m))).
+    { unfold feed. cbn [rbind]. unfold action. cbn [upd_line m_st]. rewrite ST.
+      assert (X : match strip l with [] => a_multiline (upd_line m (S (m_line m))) l | _ :: _ => a_multiline (upd_line m (S (m_line m))) l end
+                  = a_multiline (upd_line m (S (m_line m))) l) by (now destruct (strip l)).
+      rewrite X. unfold a_multiline. cbn [upd_line m_ml_term m_ml_lead m_ml_start m_lines]. rewrite T, B. reflexivity. }
+    rewrite E. set (m1 := upd_ml _ _ _ _ _).
+    destruct (IH m1) as [m' [R [S1 [L1 [A1 [A2 [A3 A4]]]]]]]; [exact ST|exact F'|].
+    exists m'. split; [exact R|]. split; [exact S1|]. cbn [map rev]. rewrite L1. cbn [m1 upd_ml upd_line m_lines m_ml_lead m_ml_term m_ml_start m_line] in *.
+    rewrite <- app_assoc. cbn [app length]. repeat split; auto. lia.
+Qed.
+
+(* the closing delimiter stores the collected lines, joined by newlines, with the line number of the opening delimiter *)
+Lemma multiline_closes m line :
+  m_st m = StMultiline -> prefixb (m_ml_term m) (strip line) = true ->
+  a_multiline m line =
+  ROk (upd_st (upd_ml (set_last_step m (fun st => mkPStep (ps_kw st) (ps_type st) (ps_name st) (ps_line st)
+                                                         (Some (join [10%N] (rev (m_lines m)), m_ml_start m)) (ps_table st)))
+                      (m_ml_start m) (m_ml_lead m) [] []) StSteps).
+Proof. intros _ P. unfold a_multiline. now rewrite P. Qed.
